@@ -20,6 +20,7 @@ type Scenario struct {
 	Pool     rt.PoolPolicy   `json:"pool"`
 	Sched    rt.SchedPolicy  `json:"sched"`
 	LL       []*LLValidator  `json:"ll,omitempty"`
+	Shared   []string        `json:"shared,omitempty"` // schemas parsed once and shared by all tasks (no $ref)
 	Tasks    [][]Op          `json:"tasks"`
 	Params   map[string]any  `json:"params,omitempty"`
 	Results  *ResultScenario `json:"results,omitempty"` // C20
@@ -123,6 +124,9 @@ func (oc *oracleCache) get(op *Op, ll []*LLValidator, variant string) Outcome {
 		oc.m = map[string]Outcome{}
 	}
 	o := computeOracle(op, ll, variant)
+	if os.Getenv("VERIF_DEBUG") != "" && (op.Kind == KSpec || op.Kind == KSpecOne) {
+		fmt.Fprintf(os.Stderr, "DEBUG oracle %s coe=%v default=%v -> %s\n", trunc(op.Doc, 50), op.COE, validate.VerifDefaultOpts().ContinueOnErrors, trunc(o.Extra, 60))
+	}
 	oc.m[k] = o
 	return o
 }
@@ -130,6 +134,9 @@ func (oc *oracleCache) get(op *Op, ll []*LLValidator, variant string) Outcome {
 // computeOracle executes op alone: fresh objects only (Get = New(), Put = discard), same map-order seed.
 // variant "nr" executes the non-recycling form of a recycling entry point; variant "fresh" the same entry point.
 func computeOracle(op *Op, ll []*LLValidator, variant string) Outcome {
+	if op.Kind == KSetCOE || op.Kind == KReset {
+		return Outcome{Valid: true} // never executed for an oracle: it would leave process-wide state behind
+	}
 	o := *op
 	o.Fault = nil
 	if variant == "nr" {
